@@ -109,16 +109,19 @@ type Header struct {
 
 // Load checks the Magic sequence and loads the header fields.
 func (h *Header) Load(buf []byte) error {
+	if len(buf) < 12 {
+		return fmt.Errorf("header too short")
+	}
 	// Use a magic byte sequence to bail fast when user passes a corrupted/unrelated stream.
 	if *(*[8]byte)(buf[:8]) != Magic {
 		return fmt.Errorf("not a radiance compactindex file")
 	}
 	// read length of the rest of the header
 	lenWithoutMagicAndLen := binary.LittleEndian.Uint32(buf[8:12])
-	if lenWithoutMagicAndLen < 12 {
+	if lenWithoutMagicAndLen < 13 {
 		return fmt.Errorf("invalid header length")
 	}
-	if lenWithoutMagicAndLen > uint32(len(buf)) {
+	if uint64(lenWithoutMagicAndLen)+12 > uint64(len(buf)) {
 		return fmt.Errorf("invalid header length")
 	}
 	// read the rest of the header
